@@ -34,7 +34,7 @@ BACKENDS = ['sqlite', 'sqlite-regex', 'redis-json', 'redis-pickle', 'mongo', 'mo
             'observable:sqlite', 'observable:memory', 'enfold-late:sqlite', 'enfold-late-pop:memory']
 
 
-def load(kind, objs):
+def load(kind, objs, via_update=0):
     """a storage of the given kind holding `objs`.  'enfold-late:X' is an enfolding cache created with populate=False
     over an already filled backend and only read from (look-ups by uid, listings) before it is searched;
     'enfold-late-pop:X' is the same followed by the documented manual populate()"""
@@ -54,8 +54,21 @@ def load(kind, objs):
             ec.populate()
         return ec
     st = stores.make(kind)
-    for o in objs:
-        st.add(o)
+    for i, o in enumerate(objs):
+        if via_update and (i + via_update) % 3 == 0:
+            # the uid first holds a policy of the OTHER kind and is then updated to this one: what a search finds is the policy
+            # as it stands now
+            from vakt.policy import Policy as _P
+            from vakt.rules import Eq as _Eq
+            if o.type == 1:
+                first = _P(o.uid, subjects=[_Eq('old')], actions=[{'a': _Eq(1)}], resources=[_Eq('r')], effect='deny',
+                           description='old')
+            else:
+                first = _P(o.uid, subjects=['old<.*>'], actions=['a'], resources=['r'], effect='deny', description='old')
+            st.add(first)
+            st.update(o)
+        else:
+            st.add(o)
     return st
 TRICKY = ['%', '_', 'a%', 'x_y', '100%', 'a\\b', 'C:\\dir\\f', 'a+b', 'a.b', 'a(b', 'a[b', 'a)b', 'docs/r(final).pdf',
           'Admin', 'admin', 'ADMIN', 'Ünï', 'a|b', 'a*', '^a$', 'get', '<get>', 'a b', "o'neil", '"q"', 'a\\',
@@ -166,9 +179,10 @@ def run(ctx):
                 other_inq = None
         desc0 = {'checker': k, 'policies': [repr(p) for p in case['policies']], 'inquiry': repr(case['inquiry']),
                  'matching_uids': match_uids, 'memory_decision': ref_dec}
+        via_update = rng.randint(1, 3) if rng.random() < 0.2 else 0
         for kind in BACKENDS:
             try:
-                st = load(kind, objs)
+                st = load(kind, objs, via_update)
             except (InvalidPatternError, re.error):
                 out.count('rejected-by-backend')
                 continue
@@ -184,7 +198,21 @@ def run(ctx):
             out.evaluations += 1
             out.count('backend:' + kind)
             desc = dict(desc0, backend=kind)
-            if other_inq is not None:
+            if via_update:
+                desc['stored'] = 'every third policy was stored as a policy of the other kind first and then updated'
+                out.count('stored-via-update')
+            pending = None
+            if other_inq is not None and rng.random() < 0.4:
+                # the search is requested first, another search is made, and only then are the candidates of the first consumed
+                # (a storage may hand out a lazy iterable): what one search yields does not depend on searches made meanwhile
+                try:
+                    pending = st.find_for_inquiry(inq, checker)
+                    capped(st.find_for_inquiry(other_inq, checker))
+                    desc['interleaved'] = 'requested, then a search for %r was made and consumed, then consumed' % (other,)
+                    out.count('interleaved-search')
+                except Exception:
+                    pending = None
+            elif other_inq is not None:
                 # the storage object has answered another inquiry before: a search leaves nothing behind for the next one
                 try:
                     capped(st.find_for_inquiry(other_inq, checker))
@@ -192,7 +220,7 @@ def run(ctx):
                 except Exception:
                     pass
             try:
-                cands = sorted(p.uid for p in st.find_for_inquiry(inq, checker))
+                cands = sorted(p.uid for p in (pending if pending is not None else st.find_for_inquiry(inq, checker)))
                 cerr = None
             except Exception as e:
                 cands, cerr = None, type(e).__name__
